@@ -127,10 +127,12 @@ structure Sess where
   inTxn : Bool
   /-- rows written by the open transaction, newest first -/
   pend : List (Obj × Attr × Val)
+  /-- `cache.query_results`: criterion queries already answered in this session → the objects they returned -/
+  qcache : List ((Attr × Val × Bool) × List Obj) := []
 
 /-- `SessionCache.__init__`: `cache.immediate = db_session.immediate` (= `not optimistic` here) -/
 def Sess.fresh (cfg : Cfg) (s : Sid) : Sess :=
-  ⟨false, fun _ => ObjSt.absent, [], fun _ => false, !cfg.sessOpt s, false, []⟩
+  ⟨false, fun _ => ObjSt.absent, [], fun _ => false, !cfg.sessOpt s, false, [], []⟩
 
 structure State where
   /-- committed rows -/
@@ -184,6 +186,9 @@ def failSess (cfg : Cfg) (σ : State) (s : Sid) : State :=
 
 def setImmediate (σ : State) (s : Sid) : State := σ.withSess s { σ.sess s with immediate := true }
 
+/-- start of [SessionCache.flush] with modified objects: `cache.immediate = True`, `cache.query_results.clear()` -/
+def prepFlush (σ : State) (s : Sid) : State := σ.withSess s { σ.sess s with immediate := true, qcache := [] }
+
 /-- `database._get_cache()` creates the SessionCache of the thread when there is none -/
 def wake (σ : State) (s : Sid) : State := σ.withSess s { σ.sess s with alive := true }
 
@@ -230,9 +235,9 @@ def saveHead (cfg : Cfg) (σ : State) (s : Sid) (o : Obj) (rest : List Obj) (don
   let wa := wAttrs cfg os
   if wa.isEmpty then
     let ss := σ.sess s
-    (σ.withSess s { ss with objs := upd ss.objs o (os.afterSave cfg), toSave := rest }, ⟨done, none⟩)
+    (σ.withSess s { ss with objs := upd ss.objs o (os.afterSave cfg), toSave := rest, qcache := [] }, ⟨done, none⟩)
   else
-    let r := ensureTxn (setImmediate σ s) s
+    let r := ensureTxn (prepFlush σ s) s
     if !r.2 then (r.1, ⟨.blocked, none⟩)
     else
       let σ1 := r.1
@@ -320,26 +325,46 @@ def markRows (cfg : Cfg) (s : Sid) (a : Attr) : List Obj → State → State
 /-- the value handed to the application for a list of objects (the set of their primary keys) -/
 def maskOf (l : List Obj) : Val := l.foldl (fun acc o => acc + (2 : Int) ^ o) 0
 
-/-- [Query._actual_fetch] for `select(x for x in E if x.a == v)` (optionally `.for_update()`), query-result cache missed:
-    every row the connection sees with `a = v` is fetched, then `_set_rbits(objects, used_attrs = {a})` -/
+def lookupQ : List ((Attr × Val × Bool) × List Obj) → Attr → Val → Bool → Option (List Obj)
+  | [], _, _, _ => none
+  | ((a', v', f'), l) :: r, a, v, f => if a' = a ∧ v' = v ∧ f' = f then some l else lookupQ r a v f
+
+/-- `cache.query_results[query_key] = items` -/
+def addQ (σ : State) (s : Sid) (a : Attr) (v : Val) (fu : Bool) (l : List Obj) : State :=
+  σ.withSess s { σ.sess s with qcache := ((a, v, fu), l) :: (σ.sess s).qcache }
+
+/-- `query_key` is None for a for_update query (`translator.query_result_is_cacheable = False`): neither looked up nor stored -/
+def cachedQ (ss : Sess) (a : Attr) (v : Val) (fu : Bool) : Option (List Obj) :=
+  if fu then none else lookupQ ss.qcache a v fu
+
+def storeQ (σ : State) (s : Sid) (a : Attr) (v : Val) (fu : Bool) (l : List Obj) : State :=
+  if fu then σ else addQ σ s a v fu l
+
+/-- [Query._actual_fetch] for `select(x for x in E if x.a == v)` (optionally `.for_update()`): answered from
+    `cache.query_results` when the same query was already run in this session since the last flush of modifications /
+    commit (no SQL, nothing re-read, nothing marked); otherwise every row the connection sees with `a = v` is fetched,
+    then `_set_rbits(objects, used_attrs = {a})`, and the result is cached -/
 def selectInDb (cfg : Cfg) (s : Sid) (a : Attr) (v : Val) (fu : Bool) (σ1 : State) : State × Out :=
-  let hit := cfg.objs.filter (fun o => view σ1 s o a == v)
-  match fetchRows s (selAttrs cfg a) fu hit σ1 with
-  | none => (failSess cfg σ1 s, ⟨.unrepeatableRead, none⟩)
-  | some σ2 => (markRows cfg s a hit σ2, ⟨.ok (some (maskOf hit)), none⟩)
+  match cachedQ (σ1.sess s) a v fu with
+  | some l => (σ1, ⟨.ok (some (maskOf l)), none⟩)
+  | none =>
+    let hit := cfg.objs.filter (fun o => view σ1 s o a == v)
+    match fetchRows s (selAttrs cfg a) fu hit σ1 with
+    | none => (failSess cfg σ1 s, ⟨.unrepeatableRead, none⟩)
+    | some σ2 => (storeQ (markRows cfg s a hit σ2) s a v fu hit, ⟨.ok (some (maskOf hit)), none⟩)
 
 /-- [SessionCache.commit] after the flush: COMMIT when in a transaction, `for_update.clear()`, `immediate = True` -/
 def commitTxn (σ : State) (s : Sid) : State :=
   let ss := σ.sess s
   let σ1 : State := if ss.inTxn then { σ with store := fun o a => view σ s o a, lock := none } else σ
-  σ1.withSess s { ss with inTxn := false, pend := [], forUpd := fun _ => false, immediate := true }
+  σ1.withSess s { ss with inTxn := false, pend := [], forUpd := fun _ => false, immediate := true, qcache := [] }
 
 inductive Action
   | get (o : Obj) (forUpdate : Bool)      -- E.get(id=o) / E.get_for_update(id=o)
   | fetch (o : Obj) (as : List Attr)      -- E.get_by_sql('SELECT id, <as> FROM e WHERE id = o'): re-reads the row
   | read (o : Obj) (a : Attr)             -- obj.a
   | find (o : Obj) (a : Attr) (v : Val)   -- E.get(id=o, a=v): 1 = found, 0 = None
-  | select (a : Attr) (v : Val) (forUpdate : Bool)   -- select(x for x in E if x.a == v)[.for_update()][:] (result cache missed)
+  | select (a : Attr) (v : Val) (forUpdate : Bool)   -- select(x for x in E if x.a == v)[.for_update()][:]
   | write (o : Obj) (a : Attr) (v : Val)  -- obj.a = v
   | flush                                 -- flush()
   | commit                                -- commit() inside the session
